@@ -54,7 +54,7 @@ func oracle(ops, outs []string) *corr.Violation {
 		return nil
 	}
 	w0 := strings.Fields(ops[0])
-	if len(w0) != 6 || w0[0] != "init" {
+	if len(w0) != 7 || w0[0] != "init" {
 		return nil
 	}
 	sb, err := strconv.ParseUint(w0[2], 16, 64)
@@ -206,8 +206,8 @@ func oracle(ops, outs []string) *corr.Violation {
 			okEffect := true
 			why := ""
 			np, provStill := n.Provs[T]
-			if len(before.Pools) == 0 && kind != "miner" && kind != "sharder" {
-				// nothing staked: the provider and its pool are removed altogether
+			if len(before.Pools) == 0 && kind != "miner" && kind != "sharder" && !(kind == "blobber" && pr.HasData) {
+				// nothing staked (and, for a blobber, nothing stored): the provider and its pool are removed altogether
 				if provStill || stillSP {
 					okEffect, why = false, "empty provider not removed"
 				}
@@ -281,14 +281,15 @@ func who(c int, sp spRec) string {
 }
 
 func fixed() [][]string {
-	hdr := func(slash float64) string {
+	hdrMin := func(slash float64, spMin uint64) string {
 		var accts []string
 		accts = append(accts, "0=1000000000000000", "1=1000000000000000", "2=1000000000000000", fmt.Sprintf("3=%d", 1000*coin))
 		for id := 10; id < 62; id++ {
 			accts = append(accts, fmt.Sprintf("%d=%d", id, 100000*coin))
 		}
-		return fmt.Sprintf("init 1 %s 3600 %s %s", hexF(slash), spw.OrderString(), strings.Join(accts, ","))
+		return fmt.Sprintf("init 1 %s 3600 %s %s %d", hexF(slash), spw.OrderString(), strings.Join(accts, ","), spMin)
 	}
+	hdr := func(slash float64) string { return hdrMin(slash, coin) }
 	r := hexF(0.1)
 	return [][]string{
 		// the design-phase probe: shut-down by the delegate wallet (before d221d33 the dead pool went to the caller's key)
@@ -307,6 +308,14 @@ func fixed() [][]string {
 		// kill by the owner, twice (refresh), rewards afterwards
 		{hdr(0.3), "reg blobber 30 50 10 " + r, "lock blobber 30 41 3330000000007 1700000000", "dump", "kill blobber 30 45", "dump", "kill blobber 30 3", "dump", "kill blobber 30 3", "dump",
 			"reward blobber 30 5000", "dump", "unlock blobber 30 41 2000000000", "dump"},
+		// no delegates at all, but the blobber stores data: the record stays and must be dead although there is nothing to
+		// slash; a reward paid afterwards must not be credited (kill by the owner, shut-down by the delegate wallet)
+		{hdrMin(0.5, 0), "reg blobber 30 50 10 " + r, "reg blobber 31 51 10 " + r, "setdata 30 1", "setdata 31 1", "dump",
+			"kill blobber 30 3", "dump", "reward blobber 30 100", "dump", "kill blobber 30 3", "dump", "reward blobber 30 100", "dump",
+			"shutdown blobber 31 51", "dump", "reward blobber 31 100", "dump", "shutdown blobber 31 51", "dump", "collect blobber 31 51", "dump"},
+		// all delegates left before the kill
+		{hdrMin(0.5, 0), "reg blobber 30 50 10 " + r, "lock blobber 30 41 50000000000 1700000000", "setdata 30 1", "unlock blobber 30 41 2000000000", "dump",
+			"shutdown blobber 30 3", "dump", "reward blobber 30 12345", "dump", "setdata 30 0", "dump"},
 		// miners and sharders
 		{hdr(0.5), "reg miner 10 56 10 " + r, "reg sharder 20 58 10 " + r, "lock miner 10 41 500000000000 1700000000", "lock sharder 20 42 500000000000 1700000000", "dump",
 			"payfees", "reward miner 10 1000000", "dump", "kill miner 10 56", "dump", "kill miner 10 3", "dump", "kill miner 10 3", "dump", "reward miner 10 1000000", "dump", "payfees",
